@@ -61,6 +61,7 @@ outer = sym('outer', (T, T), T, lambda u, v: _np.outer(u, v))
 eye = sym('eye', (I,), T, lambda n: _np.eye(int(n)))
 copyT = sym('copyT', (T,), T, lambda a: a.copy())
 sqrt = sym('sqrt', (R,), R, lambda x: float(_np.sqrt(x)))
+sqrt_s = sqrt
 cols2 = sym('cols2', (T, I, I), T, lambda a, j, k: a[:, [int(j), int(k)]])    # a[:, [j, k]] of a rank-3 array
 ssub = sym('ssub', (T, R), T, lambda a, c: a - c)
 sadd = sym('sadd', (T, R), T, lambda a, c: a + c)
@@ -105,6 +106,24 @@ eigvals = sym('eigvals', (T,), T, lambda a: _np.linalg.eigh(a)[0])
 eigvecs = sym('eigvecs', (T,), T, lambda a: _np.linalg.eigh(a)[1])
 EPS = z3.Real('EPS')          # machine epsilon: an unspecified positive real
 
+from .values import Ref as _Ref
+papply = sym('papply', (_Ref, T), T, None)             # result of applying a user callable to an array
+prank = sym('prank', (_Ref, T), I, None)               # its rank
+squeeze1 = sym('squeeze1', (T,), T, lambda a: a[:, 0]) # a[:, 0] of an array whose axis 1 has length 1
+cstack2 = sym('cstack2', (T, T), T, lambda a, b: _np.column_stack((a, b)))
+
+ptuples = sym('ptuples', (_Ref, T), T, None)           # tuples formed from a 2-D array of indicators by a callable
+
+vmean = sym('vmean', (T,), R, lambda v: float(v.mean()))
+all_pm1 = sym('all_pm1', (T,), B, lambda v: bool(_np.all(_np.abs(v) == 1)))
+frac_pos = sym('frac_pos', (T,), R, lambda v: float((v == 1).mean()))
+
+squeezeT = sym('squeezeT', (T,), T, lambda a: a.squeeze())
+
+finiteT = sym('finiteT', (T,), B, lambda a: bool(_np.isfinite(a).all()))
+zerosl = sym('zerosl', (T,), T, lambda a: _np.zeros_like(a))
+zerosmm = sym('zerosmm', (T, T), T, lambda a, b: _np.zeros_like(a) @ b)
+
 # ---- spec functions (contract vocabulary)
 mdist = sym('mdist', (T, T, T), R,                         # d_L(x, y) = || L (x - y) ||_2
             lambda L, x, y: float(_np.sqrt(((L @ (x - y)) ** 2).sum())))
@@ -113,16 +132,18 @@ qform = sym('qform', (T, T), R, lambda M, v: float(v @ M @ v))   # v^T M v
 
 
 class Ax:
-  def __init__(self, name, kind, formula, heads, lean=None, gen=None):
-    self.name, self.kind, self.formula, self.heads, self.lean, self.gen = name, kind, formula, heads, lean, gen
+  def __init__(self, name, kind, formula, heads, lean=None, gen=None, ieee=False):
+    self.name, self.kind, self.formula, self.heads, self.lean, self.gen, self.ieee = name, kind, formula, heads, lean, gen, ieee
 
 
 AXIOMS = []
 
 
-def ax(name, kind, vars_, body, pats, heads, lean=None, gen=None):
-  f = z3.ForAll(vars_, body, patterns=pats, qid=name)
-  AXIOMS.append(Ax(name, kind, f, set(heads), lean, gen))
+def ax(name, kind, vars_, body, pats, heads, lean=None, gen=None, ieee=False):
+  """ieee=True: the identity holds EXACTLY in binary64 arithmetic (sign symmetry / indexing), so it may be used
+  in the exact-identity obligations of C01"""
+  f = z3.ForAll(vars_, body, patterns=pats, qid=name) if vars_ else body
+  AXIOMS.append(Ax(name, kind, f, set(heads), lean, gen, ieee))
 
 
 a, b, c, L, M, u, v, x, y, z = [z3.Const(n, T) for n in 'a b c L M u v x y z'.split()]
@@ -132,19 +153,19 @@ s, t = z3.Reals('s t')
 # gens give (shapes by variable) for conformance sampling: 'mat(k,d)', 'vec(d)', ...
 # ---- lib: rows of elementwise / product terms (numpy semantics, conformance-sampled)
 ax('row_sub', 'lib', [a, b, i], row(sub(a, b), i) == sub(row(a, i), row(b, i)),
-   [z3.MultiPattern(row(sub(a, b), i))], ['row', 'sub'], gen=dict(a='mat(n,d)', b='mat(n,d)', i='idx(n)'))
+   [z3.MultiPattern(row(sub(a, b), i))], ['row', 'sub'], ieee=True, gen=dict(a='mat(n,d)', b='mat(n,d)', i='idx(n)'))
 ax('row_add', 'lib', [a, b, i], row(add(a, b), i) == add(row(a, i), row(b, i)),
    [z3.MultiPattern(row(add(a, b), i))], ['row', 'add'], gen=dict(a='mat(n,d)', b='mat(n,d)', i='idx(n)'))
 ax('row_take1', 'lib', [a, i, j], row(take1(a, j), i) == row(row(a, i), j),
-   [z3.MultiPattern(row(take1(a, j), i))], ['row', 'take1'], gen=dict(a='ten(n,t,d)', i='idx(n)', j='idx(t)'))
+   [z3.MultiPattern(row(take1(a, j), i))], ['row', 'take1'], ieee=True, gen=dict(a='ten(n,t,d)', i='idx(n)', j='idx(t)'))
 ax('row_mm_tr', 'lib', [a, L, i], row(mm(a, tr(L)), i) == mv(L, row(a, i)),
    [z3.MultiPattern(row(mm(a, tr(L)), i))], ['row', 'mm', 'tr'], gen=dict(a='mat(n,d)', L='mat(k,d)', i='idx(n)'))
 ax('row_sq', 'lib', [a, i], row(sq(a), i) == sq(row(a, i)),
-   [z3.MultiPattern(row(sq(a), i))], ['row', 'sq'], gen=dict(a='mat(n,d)', i='idx(n)'))
+   [z3.MultiPattern(row(sq(a), i))], ['row', 'sq'], ieee=True, gen=dict(a='mat(n,d)', i='idx(n)'))
 ax('at1_sumlast', 'lib', [a, i], at1(sumlast(a), i) == vsum(row(a, i)),
    [z3.MultiPattern(at1(sumlast(a), i))], ['at1', 'sumlast'], gen=dict(a='mat(n,d)', i='idx(n)'))
 ax('at1_sqrtT', 'lib', [a, i], at1(sqrtT(a), i) == sqrt(at1(a, i)),
-   [z3.MultiPattern(at1(sqrtT(a), i))], ['at1', 'sqrtT'], gen=dict(a='pvec(n)', i='idx(n)'))
+   [z3.MultiPattern(at1(sqrtT(a), i))], ['at1', 'sqrtT'], ieee=True, gen=dict(a='pvec(n)', i='idx(n)'))
 ax('at1_neg', 'lib', [a, i], at1(neg(a), i) == -at1(a, i),
    [z3.MultiPattern(at1(neg(a), i))], ['at1', 'neg'], gen=dict(a='vec(n)', i='idx(n)'))
 ax('at1_smul', 'lib', [a, s, i], at1(smul(s, a), i) == s * at1(a, i),
@@ -153,8 +174,8 @@ ax('at1_sub', 'lib', [a, b, i], at1(sub(a, b), i) == at1(a, i) - at1(b, i),
    [z3.MultiPattern(at1(sub(a, b), i))], ['at1', 'sub'], gen=dict(a='vec(n)', b='vec(n)', i='idx(n)'))
 ax('vsum_sq', 'math', [v], vsum(sq(v)) == dot(v, v),
    [z3.MultiPattern(vsum(sq(v)))], ['vsum', 'sq'], lean='vsum_sq_eq_dot', gen=dict(v='vec(d)'))
-ax('copy_id', 'lib', [a], copyT(a) == a, [z3.MultiPattern(copyT(a))], ['copyT'], gen=dict(a='mat(n,d)'))
-ax('tr_tr', 'math', [a], tr(tr(a)) == a, [z3.MultiPattern(tr(tr(a)))], ['tr'], lean='tr_tr', gen=dict(a='mat(n,d)'))
+ax('copy_id', 'lib', [a], copyT(a) == a, [z3.MultiPattern(copyT(a))], ['copyT'], ieee=True, gen=dict(a='mat(n,d)'))
+ax('tr_tr', 'math', [a], tr(tr(a)) == a, [z3.MultiPattern(tr(tr(a)))], ['tr'], lean='tr_tr', ieee=True, gen=dict(a='mat(n,d)'))
 # ---- vector algebra needed to identify the two closures (get_metric) with mdist
 ax('vm_tr', 'math', [v, L], vm(v, tr(L)) == mv(L, v), [z3.MultiPattern(vm(v, tr(L)))], ['vm', 'tr'],
    lean='vecMul_transpose', gen=dict(v='vec(d)', L='mat(k,d)'))
@@ -168,6 +189,50 @@ ax('gram_fold', 'def', [L], mm(tr(L), L) == gram(L), [z3.MultiPattern(mm(tr(L), 
 ax('qform_gram', 'math', [L, v], qform(gram(L), v) == dot(mv(L, v), mv(L, v)),
    [z3.MultiPattern(qform(gram(L), v)), z3.MultiPattern(mv(L, v), gram(L))], ['qform', 'gram'], lean='quad_form_gram',
    gen=dict(L='mat(k,d)', v='vec(d)'))
+# ---- lib: elementwise comparisons / scalar arithmetic at a generic index (numpy semantics)
+_cmpz = {'lt': lambda p_, q_: p_ < q_, 'le': lambda p_, q_: p_ <= q_, 'gt': lambda p_, q_: p_ > q_, 'ge': lambda p_, q_: p_ >= q_,
+         'eq': lambda p_, q_: p_ == q_, 'ne': lambda p_, q_: p_ != q_}
+for _n, _f in _cmpz.items():
+  ax('at1_cmp_%s_s' % _n, 'lib', [a, s, i], at1(cmps(_n)(a, s), i) == z3.If(_f(at1(a, i), s), z3.RealVal(1), z3.RealVal(0)),
+     [z3.MultiPattern(at1(cmps(_n)(a, s), i))], ['at1', 'cmp_%s_s' % _n], gen=dict(a='vec(n)', s='real', i='idx(n)'))
+ax('at1_ssub', 'lib', [a, s, i], at1(ssub(a, s), i) == at1(a, i) - s, [z3.MultiPattern(at1(ssub(a, s), i))], ['at1', 'ssub'],
+   gen=dict(a='vec(n)', s='real', i='idx(n)'))
+ax('at1_sadd', 'lib', [a, s, i], at1(sadd(a, s), i) == at1(a, i) + s, [z3.MultiPattern(at1(sadd(a, s), i))], ['at1', 'sadd'],
+   gen=dict(a='vec(n)', s='real', i='idx(n)'))
+ax('at1_signT', 'lib', [a, i], at1(signT(a), i) == z3.If(at1(a, i) > 0, z3.RealVal(1), z3.If(at1(a, i) < 0, z3.RealVal(-1), z3.RealVal(0))),
+   [z3.MultiPattern(at1(signT(a), i))], ['at1', 'signT'], gen=dict(a='vec(n)', i='idx(n)'))
+ax('row_cols2_0', 'lib', [a, i, j, n], row(row(cols2(a, j, n), i), 0) == row(row(a, i), j),
+   [z3.MultiPattern(row(cols2(a, j, n), i))], ['row', 'cols2'], ieee=True, gen=dict(a='ten(n,4,d)', i='idx(n)', j='idx(4)', n='idx(4)'))
+ax('row_cols2_1', 'lib', [a, i, j, n], row(row(cols2(a, j, n), i), 1) == row(row(a, i), n),
+   [z3.MultiPattern(row(cols2(a, j, n), i))], ['row', 'cols2'], ieee=True, gen=dict(a='ten(n,4,d)', i='idx(n)', j='idx(4)', n='idx(4)'))
+# score of the triplet / quadruplet classifiers: mean of a +-1 vector
+ax('mean_pm1', 'math', [a], z3.Implies(all_pm1(a), vmean(a) / 2 + z3.RealVal(1) / 2 == frac_pos(a)),
+   [z3.MultiPattern(vmean(a))], ['vmean'], lean='mean_pm1_eq_frac_pos', gen=dict(a='pm1(n)'))
+# ---- IEEE-exact sign symmetries (binary64: a-b = -(b-a), (-a)*(-a) = a*a, x-x = 0 for finite x, dot products of
+# negated operands are negated [ASSUMED of the BLAS kernels]); used by the exact-identity obligations of C01
+ax('fl_sub_anticomm', 'math', [a, b], sub(b, a) == neg(sub(a, b)), [z3.MultiPattern(sub(a, b))], ['sub'], lean='neg_sub', ieee=True,
+   gen=dict(a='mat(n,d)', b='mat(n,d)'))
+ax('fl_mm_neg', 'lib', [a, b], mm(neg(a), b) == neg(mm(a, b)), [z3.MultiPattern(mm(neg(a), b))], ['mm', 'neg'], ieee=True,
+   gen=dict(a='mat(n,d)', b='mat(d,k)'))
+ax('fl_vm_neg', 'lib', [a, b], vm(neg(a), b) == neg(vm(a, b)), [z3.MultiPattern(vm(neg(a), b))], ['vm', 'neg'], ieee=True,
+   gen=dict(a='vec(d)', b='mat(d,k)'))
+ax('fl_sq_neg', 'math', [a], sq(neg(a)) == sq(a), [z3.MultiPattern(sq(neg(a)))], ['sq', 'neg'], lean='neg_sq', ieee=True, gen=dict(a='mat(n,d)'))
+ax('fl_dot_neg', 'lib', [a], dot(neg(a), neg(a)) == dot(a, a), [z3.MultiPattern(dot(neg(a), neg(a)))], ['dot', 'neg'], ieee=True, gen=dict(a='vec(d)'))
+ax('fl_take1_cols2_0', 'lib', [a, j, n], take1(cols2(a, j, n), 0) == take1(a, j), [z3.MultiPattern(take1(cols2(a, j, n), 0))],
+   ['take1', 'cols2'], ieee=True, gen=dict(a='ten(n,4,d)', j='idx(4)', n='idx(4)'))
+ax('fl_take1_cols2_1', 'lib', [a, j, n], take1(cols2(a, j, n), 1) == take1(a, n), [z3.MultiPattern(take1(cols2(a, j, n), 1))],
+   ['take1', 'cols2'], ieee=True, gen=dict(a='ten(n,4,d)', j='idx(4)', n='idx(4)'))
+ax('fl_sub_self', 'math', [a], z3.Implies(finiteT(a), sub(a, a) == zerosl(a)), [z3.MultiPattern(sub(a, a))], ['sub'], lean='sub_self', ieee=True,
+   gen=dict(a='mat(n,d)'))
+ax('fl_mm_zero', 'lib', [a, b], z3.Implies(finiteT(b), mm(zerosl(a), b) == zerosmm(a, b)), [z3.MultiPattern(mm(zerosl(a), b))], ['mm', 'zerosl'], ieee=True)
+ax('fl_vm_zero', 'lib', [a, b], z3.Implies(finiteT(b), vm(zerosl(a), b) == zerosmm(a, b)), [z3.MultiPattern(vm(zerosl(a), b))], ['vm', 'zerosl'], ieee=True)
+ax('fl_sq_zero', 'math', [a, b], sq(zerosmm(a, b)) == zerosmm(a, b), [z3.MultiPattern(sq(zerosmm(a, b)))], ['sq', 'zerosmm'], ieee=True)
+ax('fl_sumlast_zero', 'math', [a, b, i], at1(sumlast(zerosmm(a, b)), i) == 0, [z3.MultiPattern(at1(sumlast(zerosmm(a, b)), i))], ['sumlast', 'zerosmm'], ieee=True)
+ax('fl_dot_zero', 'math', [a, b], dot(zerosmm(a, b), zerosmm(a, b)) == 0, [z3.MultiPattern(dot(zerosmm(a, b), zerosmm(a, b)))], ['dot', 'zerosmm'], ieee=True)
+ax('sqrt_zero', 'math', [], sqrt(z3.RealVal(0)) == 0, [], ['sqrt'], lean='Real.sqrt_zero', ieee=True)
+ax('gram_symm', 'math', [L], tr(gram(L)) == gram(L), [z3.MultiPattern(tr(gram(L)))], ['tr', 'gram'], lean='gram_transpose', gen=dict(L='mat(k,d)'))
+ax('mv_sub', 'math', [L, x, y], sub(mv(L, x), mv(L, y)) == mv(L, sub(x, y)), [z3.MultiPattern(sub(mv(L, x), mv(L, y)))], ['sub', 'mv'],
+   lean='mulVec_sub', gen=dict(L='mat(k,d)', x='vec(d)', y='vec(d)'))
 # ---- math: real sqrt
 ax('sqrt_nonneg', 'math', [s], sqrt(s) >= 0, [z3.MultiPattern(sqrt(s))], ['sqrt'], lean='Real.sqrt_nonneg', gen=dict(s='real'))
 ax('sqrt_sq', 'math', [s], z3.Implies(s >= 0, sqrt(s) * sqrt(s) == s), [z3.MultiPattern(sqrt(s))], ['sqrt'],
@@ -185,7 +250,7 @@ ax('mdist_triangle', 'math', [L, x, y, z], mdist(L, x, z) <= mdist(L, x, y) + md
    gen=dict(L='mat(k,d)', x='vec(d)', y='vec(d)', z='vec(d)'))
 
 
-def select_axioms(terms, extra_heads=()):
+def select_axioms(terms, extra_heads=(), closure=True):
   """axioms whose head symbols all occur in the given z3 terms (closure: axioms can introduce symbols)"""
   seen = set(extra_heads)
 
@@ -207,9 +272,12 @@ def select_axioms(terms, extra_heads=()):
   while changed:
     changed = False
     for a_ in AXIOMS:
+      if a_.name.startswith('fl_'):
+        continue          # sign-symmetry identities: only loaded for the exact-identity obligations (axioms_only='ieee')
       if a_ not in chosen and a_.heads <= seen:
         chosen.append(a_)
-        walk(a_.formula, seen, visited)
-        changed = True
+        if closure:
+          walk(a_.formula, seen, visited)
+          changed = True
   return chosen
 
